@@ -3,6 +3,7 @@ package parser
 
 import (
 	"slices"
+	"strconv"
 
 	c "github.com/paulsonkoly/calc/combinator"
 	"github.com/paulsonkoly/calc/lexer"
@@ -23,9 +24,20 @@ func (t Type) Parse(input string) ([]node.Type, *Error) {
 }
 
 // Parse parses the input string and returns an AST or a parse error.
-func Parse(input string) ([]node.Type, *Error) {
+func Parse(input string) (rn []node.Type, err *Error) {
 	l := lexer.NewTLexer(input)
-	rn := make([]node.Type, 0)
+	rn = make([]node.Type, 0)
+
+	// a number literal that does not fit its type is reported as a parse error
+	defer func() {
+		if r := recover(); r != nil {
+			numErr, ok := r.(*strconv.NumError)
+			if !ok {
+				panic(r)
+			}
+			rn, err = nil, c.NewError("Parser: "+numErr.Error(), l.Token().From(), l.Token().To())
+		}
+	}()
 
 	r, err := program(&l)
 	for _, e := range r {
